@@ -62,10 +62,7 @@ def encode(info, keys, seq, recs):
     a.append(str(sel))
     evs, texts = [], []
     for ev, rec in zip(seq, recs[1:]):
-        if ev[0] == 'copy':
-            ev = ('text', ev[2], rec['texts_before'][ev[1]])
-        elif ev[0] == 'nudge':
-            ev = ('text', ev[1], f"{float(rec['texts_before'][ev[1]]) + ev[2]:.4f}")
+        ev = tuple(rec.get('resolved', ev))
         if ev[0] == 'text':
             texts.append(ev[2])
             evs += ['text', ev[1], hexs(ev[2])]
